@@ -1,7 +1,65 @@
 import Mutagen.Driver.Util
+import Mutagen.Driver.C19
+import Mutagen.Model.Rsync
 namespace Mutagen.Driver.C20
+open Mutagen.Driver Mutagen.Driver.C19 Mutagen.Model.Rsync
 
-/-- Model-side handler for one line of the C20 correspondence stream. -/
-def handle (_line : String) : String := "unimplemented"
+/-!
+Lines (the model is the *repaired* `sendBlock`, fixes/C20.patch):
+* `e <hasher> <blockSize> <maxOp> <base hex> <target hex> <failspec>` —
+  `Engine.Deltify` with a scripted transmitter.
+  Output `ret=<ok|err> log=<op>/<1|0>,…` (every attempted call, 1 = accepted).
+* `t <blockSize> <failspec> <finalizeFails 0|1> <extraSigs> <file>;<file>…` —
+  `rsync.Transmit` (SHA-1) over files `<base hex>:<target hex>` (`!` as target:
+  the file cannot be opened) into a scripted receiver; `extraSigs` additional
+  signatures provoke the length mismatch.
+  Output `ret=<ok|err> fin=<finalize calls> log=<msg>/<1|0>,…` with msg
+  `O<expectedSize>:<op>` or `F<0|1>` (done, with/without error text).
+failspec: `none`, `once:k`, `from:k`, `set:a.b.c` (call indices, 0-based).
+-/
+
+def parseFails (s : String) : Option (Nat → Bool) :=
+  match s.splitOn ":" with
+  | ["none"] => some fun _ => false
+  | ["once", k] => do let k ← k.toNat?; pure fun i => i == k
+  | ["from", k] => do let k ← k.toNat?; pure fun i => i ≥ k
+  | ["set", l] => do let ks ← (l.splitOn ".").mapM String.toNat?; pure fun i => ks.contains i
+  | _ => none
+
+def showMsg : Msg → String
+  | .op n o => s!"O{n}:{showOp o}"
+  | .done e => if e then "F1" else "F0"
+
+def parseFile (bs : Nat) (s : String) : Option (Option (List UInt8) × Signature (List UInt8)) :=
+  match s.splitOn ":" with
+  | [b, t] => do
+    let base ← decHex b
+    let sig := signature Mutagen.Model.Sha1.sha1 base bs
+    if t == "!" then pure (none, sig) else do
+      let target ← decHex t
+      pure (some target, sig)
+  | _ => none
+
+def handle (line : String) : String :=
+  match fields line with
+  | ["e", hn, bs, mx, b, t, fs] =>
+    match hasher hn, bs.toNat?, mx.toNat?, decHex b, decHex t, parseFails fs with
+    | some H, some bs, some mx, some base, some target, some fails =>
+      let sig := signature H base bs
+      let (tx, ex) := deltify (Tx.transmit fails) H true target sig mx Tx.empty
+      let ret := if ex == .ok then "ok" else showExit ex
+      s!"ret={ret} log=" ++ showList (tx.log.map fun (o, ok) => s!"{showOp o}/{if ok then 1 else 0}")
+    | _, _, _, _, _, _ => "bad-op"
+  | ["t", bs, fs, ff, extra, files] =>
+    match bs.toNat?, parseFails fs, extra.toNat?, (listSemi files).mapM (parseFile (bs.toNat?.getD 1)) with
+    | some _, some fails, some extra, some fl =>
+      let sigs := fl.map (·.2) ++ List.replicate extra { blockSize := 0, lastBlockSize := 0, hashes := [] }
+      let (rx, e) := transmit Mutagen.Model.Sha1.sha1 true fails (ff == "1") (fl.map (·.1)) sigs
+      s!"ret={if e then "err" else "ok"} fin={rx.finalized} log=" ++
+        showList (rx.log.map fun (m, ok) => s!"{showMsg m}/{if ok then 1 else 0}")
+    | _, _, _, _ => "bad-op"
+  | _ => "bad-op"
+where
+  listSemi (s : String) : List String := if s == "-" then [] else s.splitOn ";"
 
 end Mutagen.Driver.C20
